@@ -129,6 +129,35 @@ pub fn sweep(rep: &mut Report, flags: Flags, part_name: &str, filter: &dyn Fn(&s
                     }
                 });
             }
+            // fourth pass: "iteration budget or optimum reached" as termination condition, on instances whose optimum
+            // value cannot be reached: the budget alone decides, exactly as before
+            if flags.c16 && *seed == sc.seeds[0] && spec.optimum_unreachable() {
+                let mut cfg4 = tape_cfg(&sc, &spec.name(), *seed, *i);
+                cfg4.stride = 3;
+                cfg4.offset = *i % 3;
+                let body4 = || {
+                    crate::subject::templates::COND_VARIANT.with(|v| v.set(1));
+                    let r = spec.run(flags, &EvKind::Sequential);
+                    crate::subject::templates::COND_VARIANT.with(|v| v.set(0));
+                    r
+                };
+                tape::explore_par(&cfg4, &body4, &|prefix, out, _log| {
+                    let mut sub = sub.lock().unwrap();
+                    sub.traces += 1;
+                    match out {
+                        Outcome::Done(o) => {
+                            sub.transitions += o.steps;
+                            digests.lock().unwrap().insert(fnv(&o.digest));
+                            for (sig, d) in &o.violations {
+                                sub.violate(format!("{} termination=budget-or-optimum", sig), d.clone(), json!({"spec": spec.name(), "tape": prefix, "seed": seed, "menu": sc.menu.len(), "flags": flags_json(flags), "iters": sc.iters, "thorough": sc.thorough, "cond_variant": 1}));
+                            }
+                        }
+                        Outcome::Panic(m) => sub.machinery(format!("harness panic outside the subject in {}: {}", spec.name(), m.chars().take(200).collect::<String>())),
+                        Outcome::Truncated => sub.truncated += 1,
+                        Outcome::Diverged(m) => sub.machinery(format!("tape divergence in {}: {}", spec.name(), m)),
+                    }
+                });
+            }
             let mut sub = sub.into_inner().unwrap();
             sub.states = digests.into_inner().unwrap().len() as u64;
             sub.bounds.insert("max_choices".into(), json!(st.max_choices));
@@ -219,8 +248,15 @@ pub fn replay(case: &Value) -> Result<Vec<(String, String)>, String> {
         Some(k) => EvKind::Parallel(k as usize),
         None => EvKind::Sequential,
     };
-    let (out, _) = tape::run_once(&cfg, &tape, || spec.run(flags, &ev));
+    let cv = case["cond_variant"].as_u64().unwrap_or(0) as u8;
+    let (out, _) = tape::run_once(&cfg, &tape, || {
+        crate::subject::templates::COND_VARIANT.with(|v| v.set(cv));
+        let r = spec.run(flags, &ev);
+        crate::subject::templates::COND_VARIANT.with(|v| v.set(0));
+        r
+    });
     match out {
+        Outcome::Done(o) if cv == 1 => Ok(o.violations.into_iter().map(|(s, d)| (format!("{} termination=budget-or-optimum", s), d)).collect()),
         Outcome::Done(o) => Ok(o.violations),
         Outcome::Panic(m) => Err(format!("harness panic: {}", m)),
         _ => Ok(vec![]),
